@@ -286,6 +286,8 @@ def forward_substitute(fn, candidates, extra_pure=()):
                 if not is_pure(rhs, extra_pure):
                     continue
                 uses = [n for n in _walk_fn(fn) if isinstance(n, ast.Name) and n.id == var and isinstance(n.ctx, ast.Load)]
+                if not uses:
+                    continue  # nothing to substitute: the statement stays (rules may care that the expression is evaluated)
                 later = lst[i + 1:]
                 if not all(any(_contains(s, u) for s in later) for u in uses):
                     continue  # a use that the definition does not dominate structurally
@@ -399,8 +401,8 @@ def tailify(stmts, k, at):
                 return out + [ast.copy_location(new, st)]
             raise NotInlineable(f"return inside {type(st).__name__}")
         out.append(st)
-    tail = k(ast.copy_location(ast.Return(value=None), at))
-    out = out + tail
+    if not _terminates(out):
+        out = out + k(ast.copy_location(ast.Return(value=None), at))
     return out or [ast.copy_location(ast.Pass(), at)]
 
 
